@@ -1,17 +1,19 @@
 #!/usr/bin/env python3
 """One-off tie for the two repairs proposed by the C06 reader-against-specification work
-(notes/fixes/c06-superblock-sizes.patch, notes/fixes/c06-attribute-v2-padding.patch).
+(notes/fixes/c06-superblock-sizes.patch, notes/fixes/c06-attribute-v2-padding.patch,
+notes/fixes/c06-pipeline-v2-filter-name.patch).
 
 NOT part of `check.py C06`: it needs a repository with the patches applied.
 
     cp -r /repo build/repo-fixed && git -C build/repo-fixed apply notes/fixes/c06-superblock-sizes.patch \
-        notes/fixes/c06-attribute-v2-padding.patch
+        notes/fixes/c06-attribute-v2-padding.patch notes/fixes/c06-pipeline-v2-filter-name.patch
     VERIF_REPO=$PWD/build/repo-fixed python3 tools/props/c06repaired.py [n]
 
-It runs core.ReadSuperblock / core.ParseAttributeMessage of THAT repository (harness c11, raw mode) on specification
+It runs core.ReadSuperblock / core.ParseAttributeMessage / core.ParseFilterPipelineMessage of THAT repository (harness c11, raw mode) on specification
 superblocks of every size combination, version 1-3 attribute messages, and byte-level mutations / truncations of them, and
 compares class (ok / error / panic) and every returned field with the repaired-reader transcriptions
-Model/CodecSuperRepaired.v dec_superblock_gen true and Model/CodecAttrRepaired.v dec_attribute_gen false, evaluated in Coq.
+Model/CodecSuperRepaired.v dec_superblock_gen true, Model/CodecAttrRepaired.v dec_attribute_gen false and
+Model/CodecFilterRepaired.v dec_pipeline_gen true, evaluated in Coq.
 Exit 0 = the transcriptions agree with the patched code on every case.
 """
 import os, random, sys
@@ -48,7 +50,19 @@ def main():
     n = int(sys.argv[1]) if len(sys.argv) > 1 else 1200
     rng = random.Random(6)
     H = vlib.build_harness()
-    sbs, ats = [], []
+    sbs, ats, pls = [], [], []
+
+    def filt(v1, fid, name, flags, cd, ver):
+        nm = name + bytes(-len(name) % 8) if v1 else name
+        b = le(2, fid) + (le(2, len(name)) if (v1 or fid >= 256) else b"") + le(2, flags) + le(2, len(cd)) + nm + b"".join(le(4, c) for c in cd)
+        if ver == 1 and len(cd) % 2:
+            b += bytes(4)
+        return b
+    for ver, v1 in ((1, True), (2, False), (2, True)):
+        for fl in ([(2, b"", 0, [4])], [(1, b"", 1, [6])], [(32000, b"lzf\0", 0, [5])], [(307, b"bzip2\0", 1, [9, 1])],
+                   [(2, b"", 0, [4]), (32000, b"lzf\0", 0, [])], [(32000, b"lzf\0", 0, [1, 2, 3]), (1, b"", 0, [6])],
+                   [(3, b"", 0, [])], [(257, b"", 0, [7])]):
+            pls.append(bytes([ver, len(fl)]) + (bytes(6) if v1 else b"") + b"".join(filt(v1, *f, ver) for f in fl))
     for v in (2, 3):
         for o in (1, 2, 4, 8, 0, 3, 16):
             for l in (1, 2, 4, 8, 0, 3):
@@ -62,34 +76,38 @@ def main():
         for name in (b"a", b"abc", b"abcdefg", b"abcdefgh"):
             for ds, nel in ((bytes([2, 1, 0, 1]) + le(4, 3), 3), (bytes([1, 1, 0, 0, 0, 0, 0, 0]) + le(8, 2), 2), (bytes([2, 0, 0, 0]), 1)):
                 ats.append(attr(ver, name, dt, ds, bytes(range(1, nel + 1))))
-    base_sb, base_at = list(sbs), list(ats)
-    while len(sbs) + len(ats) < n:
+    base_sb, base_at, base_pl = list(sbs), list(ats), list(pls)
+    while len(sbs) + len(ats) + len(pls) < n:
+        b = rng.choice(base_pl)
+        pls += [bytes.fromhex(h) for _, h in c11.mutations(rng, b.hex(), 1, 3)]
         b = rng.choice(base_sb)
         sbs += [bytes.fromhex(h) for _, h in c11.mutations(rng, b.hex(), 1, 3, focus=8)]
         b = rng.choice(base_at)
         ats += [bytes.fromhex(h) for _, h in c11.mutations(rng, b.hex(), 1, 3)]
     cases = [dict(kind="superblock", raw=b.hex()) for b in sbs] + \
-            [dict(kind="attribute", raw=b.hex(), sb=dict(v=2, o=8, l=8, be=False)) for b in ats]
+            [dict(kind="attribute", raw=b.hex(), sb=dict(v=2, o=8, l=8, be=False)) for b in ats] + \
+            [dict(kind="filterpipe", raw=b.hex()) for b in pls]
     res = vlib.run_harness(H, "c11", cases)
     v = ["From HV Require Import Base.Prelude Base.Outcome Base.Bytes Model.CodecMsg Model.CodecType Model.CodecAttr Model.CodecSuper "
-         "Model.CodecAttrRepaired Model.CodecSuperRepaired.\n"
+         "Model.CodecAttrRepaired Model.CodecSuperRepaired Model.CodecFilter Model.CodecFilterRepaired.\n"
+         "Definition pl_ok (c : bytes * val) : bool := val_eqb (oval val_pipeline' (dec_pipeline_gen true (fst c))) (snd c).\n"
          "Definition sb_ok (c : bytes * val) : bool := val_eqb (oval val_superblock' (dec_superblock_gen true (fst c))) (snd c).\n"
          "Definition at_ok (c : bytes * val) : bool := val_eqb (oval val_attribute' (dec_attribute_gen false false (fst c))) (snd c).\n"]
-    ns = len(sbs)
-    for name, pred, lo, hi in (("s", "sb_ok", 0, ns), ("a", "at_ok", ns, len(cases))):
+    ns, na = len(sbs), len(sbs) + len(ats)
+    for name, pred, lo, hi in (("s", "sb_ok", 0, ns), ("a", "at_ok", ns, na), ("p", "pl_ok", na, len(cases))):
         for j in range(lo, hi, 1000):
             items = ["(%s, %s)" % (c11.cbytes(cases[i]["raw"]), c11.cval(c11.goval(res[i]["raw"]))) for i in range(j, min(j + 1000, hi))]
             v.append("Definition %s_%d : list (bytes * val) := [%s].\n" % (name, j, ";\n".join(items)))
             v.append("Definition r%s_%d := Eval vm_compute in mismatches %s %s_%d.\nPrint r%s_%d.\n" % (name, j, pred, name, j, name, j))
     out = vlib.coq_eval("".join(v), "c06repaired")
     bad = []
-    for name, lo, hi in (("s", 0, ns), ("a", ns, len(cases))):
+    for name, lo, hi in (("s", 0, ns), ("a", ns, na), ("p", na, len(cases))):
         for j in range(lo, hi, 1000):
             bad += [j + k for k in vlib.parse_nlist(out, "r%s_%d" % (name, j))]
     cls = {}
     for r in res:
         cls[r["raw"]["c"]] = cls.get(r["raw"]["c"], 0) + 1
-    print("cases: %d superblocks, %d attribute messages; implementation outcomes %s" % (ns, len(cases) - ns, cls))
+    print("cases: %d superblocks, %d attribute messages, %d filter pipeline messages; implementation outcomes %s" % (ns, na - ns, len(cases) - na, cls))
     for i in bad[:10]:
         print("MISMATCH", cases[i]["kind"], cases[i]["raw"], res[i]["raw"])
     print("mismatches: %d" % len(bad))
